@@ -27,6 +27,15 @@
         (k+1)-th 1-bit (64*len after the last).
     [bitmap.Slice/walk] [segs; from; to]: r := Slice(bm, from, to), then the NextOne walk and the PrevOne walk of the
         whole of r ([SliceWalk]); spec = [the 1-bits of [from, to) minus from; the same reversed].
+    [bitmap.Next/session] [segs; steps]: steps [[k; i; e]] run in order on ONE slice, k = 0 NextOne, 1 PrevOne,
+        2 = set bit i IN PLACE ([bm[i>>6] |= 1<<(i&63)], reported as 0); observed = [results; slice = the
+        initial slice with exactly those bits set]; model [Session] (int32 model), spec [spec_session]: every
+        query answered for the bitmap as it is at the moment of the call.
+    [bitmap.NextOne/huge] [segs; i; e]: one call on a bitmap too long for the model's per-word list indexing
+        (2^17 words); model = [NextOneFast] (= NextOne, Proofs/NextSession.v: NextOneFast_eq).
+    [bitmap.Next/realloc] [R; segsA; queriesA; segsB; queriesB]: R rounds of: allocate A, run queriesA, drop A,
+        runtime.GC(), allocate B (same length), run queriesB, drop B, GC; observed = R times [resultsA; resultsB];
+        spec = every query on its own bitmap.
     [bitmap.NextOne/any] [bitmap.PrevOne/any] [segs; i; e]: ANY int32 [i], [e] (outside the property's domain
         too); model = int32 model, spec = Spec/NextTotalSpec.v (exact panic sets).  DIAGNOSTIC ONLY: no
         generator of ./check C13 emits these (behaviour outside the stated domain is not compared by the
@@ -34,7 +43,7 @@
         C13_NextOne_any / C13_PrevOne_any / C13_int32_agree against the real code (docs/selftest-C13.md). *)
 From Coq Require Import ZArith List Bool String.
 From Low Require Import Lib.Bits Lib.BitSeq Lib.Val Model.BitmapNext Model.BitmapNext32 Model.BitmapNextIter
-  Model.BitmapOf Model.BitmapNextReaders Spec.NextSpec Spec.NextTotalSpec.
+  Model.BitmapOf Model.BitmapNextReaders Model.BitmapNextSession Spec.NextSpec Spec.NextTotalSpec Spec.NextSessionSpec.
 Import ListNotations.
 Open Scope string_scope.
 Open Scope Z_scope.
@@ -229,5 +238,40 @@ Definition ops_C13_wide : list opdef := [
                                          | None => VPanic
                                          end);
      op_spec := fun_spec (fun a => with_bm_i_e a iter_dom
-                          (fun bm i e => let l := map (fun p => p - i) (ones_in bm i e) in VL [vzs l; vzs (rev l)])) |}
+                          (fun bm i e => let l := map (fun p => p - i) (ones_in bm i e) in VL [vzs l; vzs (rev l)])) |};
+  {| op_name := "bitmap.Next/session";
+     op_run := fun a => match a with
+       | [bm; st] => match as_bm bm, as_zss st with
+           | Some bm, Some st =>
+               if forallb (step_dom (64 * zlen bm)) st
+               then match Session bm st with Some r => VL [vzs r; VZ 1] | None => VPanic end
+               else VBad
+           | _, _ => VBad end
+       | _ => VBad end;
+     op_spec := fun_spec (fun a => match a with
+       | [bm; st] => match as_bm bm, as_zss st with
+           | Some bm, Some st => VL [vzs (spec_session bm st); VZ 1]
+           | _, _ => VBad end
+       | _ => VBad end) |};
+  {| op_name := "bitmap.NextOne/huge";
+     op_run := fun a => with_bm_i_e a next_dom (fun bm i e => voz (NextOneFast bm i e));
+     op_spec := fun_spec (fun a => with_bm_i_e a next_dom (fun bm i e => VZ (spec_NextOne bm i e))) |};
+  {| op_name := "bitmap.Next/realloc";
+     op_run := fun a => match a with
+       | [r; bma; qa; bmb; qb] => match as_z r, as_bm bma, as_zss qa, as_bm bmb, as_zss qb with
+           | Some r, Some bma, Some qa, Some bmb, Some qb =>
+               if (0 <=? r) && (r <=? 1000) && forallb (q_dom bma) qa && forallb (q_dom bmb) qb
+               then match opt_all (map (q_run bma) qa), opt_all (map (q_run bmb) qb) with
+                    | Some x, Some y => VL (repeat (VL [vzs x; vzs y]) (Z.to_nat r))
+                    | _, _ => VPanic
+                    end
+               else VBad
+           | _, _, _, _, _ => VBad end
+       | _ => VBad end;
+     op_spec := fun_spec (fun a => match a with
+       | [r; bma; qa; bmb; qb] => match as_z r, as_bm bma, as_zss qa, as_bm bmb, as_zss qb with
+           | Some r, Some bma, Some qa, Some bmb, Some qb =>
+               VL (repeat (VL [vzs (map (q_spec bma) qa); vzs (map (q_spec bmb) qb)]) (Z.to_nat r))
+           | _, _, _, _, _ => VBad end
+       | _ => VBad end) |}
 ].
